@@ -371,3 +371,31 @@ _ADDED3 = {
 for _k, _t in _ADDED3.items():
     CLAIMED[_k]["text"] += _t
 
+
+# round-4 additions (DESIGN 10.9)
+_LOCALE = (" A slice of the same executions runs again in a process that selected a private non-C locale with setlocale() "
+           "(lib/vlib/locale8.py: 8-bit character set with accented letters%s), validated by the same trace specification.")
+_ADDED4 = {
+    "C01": _LOCALE % ", decimal comma" + " The file reader is run as a buffer initialiser (File.tla BufFromFile): refusals before "
+           "and after the buffer exists (missing path, directory) and a 129 MiB file read with hints below / at its size.",
+    "C02": _LOCALE % "",
+    "C03": " Requests of 2^30 .. 2^33 + k bytes (address space only) acquired, grown to and shrunk back between small traffic; "
+           "parent allocators without calloc and/or realloc entry points.",
+    "C04": _LOCALE % ", decimal comma, non-English month names" + " JSON string literals made of escapes that run into each other.",
+    "C05": _LOCALE % "" + " The appending base64 encoder on buffers that already hold k * 2^32 + d bytes (CodecTrace!TB64EncAt).",
+    "C06": " In a fifth of the executions the elements are records that embed their own handle and are removed into themselves "
+           "(output buffer overlapping the handle).",
+    "C07": " Cancelling a task that was initialised but never handed to the scheduler (exactly one CANCELED invocation, scheduler untouched).",
+    "C09": " Counts and indices 'beyond everything' are also spelt ceil(2^64 / item_size) + k, so that byte counts wrap around size_t.",
+    "C11": _LOCALE % ", decimal comma" + " Members and elements are duplicated while still inside their container "
+           "(JsonValue!DuplicateSub) and moved between containers.",
+    "C12": _LOCALE % "" + " Callback action 'd' descends and reports success whatever the nested traversal returned: the "
+           "observations must be those of 'D' (a failure is the parser's to remember).",
+    "C13": _LOCALE % "" + " Uri!BuildFree: builder calls with host texts the parser cannot read back (bare IPv6 literals ...) x "
+           "every port width; on success nothing that was given may be missing from the text.",
+    "C18": " Where there is a value destructor and no key destructor most executions use the 'key is a field of the value' layout: "
+           "once a value's destructor has run its key reads as garbage until the call returns.",
+    "C19": _LOCALE % ", non-English day and month names",
+}
+for _k, _t in _ADDED4.items():
+    CLAIMED[_k]["text"] += _t
